@@ -166,7 +166,7 @@ def render(c):
 
 def run(pid, tier, seed, replay):
     ck = Check(pid, tier, seed, level="proof")
-    n = 200 if tier == "quick" else 6000
+    n = 200 if tier == "quick" else 3000
     # ---- T: regenerate the tables from the current sources
     info_path = os.path.join(vlib.BUILD, "c38_info.json")
     rc, out, _ = vlib.sh([sys.executable, os.path.join(vlib.VERIF, TRANSLATOR), vlib.REPO, os.path.join(vlib.COQ, "Gen/OperatorPrec.v"), "--json", info_path])
@@ -198,7 +198,7 @@ def run(pid, tier, seed, replay):
             continue
         if "panic" in c:
             ck.fail_input("panic: " + c["panic"][:300], {k: c.get(k) for k in ("stream", "mode", "meaning", "sql0", "optimized")}, key=c.get("key"))
-        elif s == "plan":
+        elif "sql0" in c:
             what = {"replan": "the SQL text plan_to_sql produced does not plan again", "rerun": "the SQL text plan_to_sql produced does not run",
                     "compared": "the SQL text plan_to_sql produced returns different %s" % c.get("why", "")}.get(c["stage"], c["stage"])
             ck.fail_input("%s (%s plan of %s): %s" % (what, "optimized" if c["optimized"] else "unoptimized", c["sql0"][:400], (c.get("msg") or "")[:300]),
@@ -234,10 +234,10 @@ def run(pid, tier, seed, replay):
         kids = [v for k, v in x.items() if isinstance(v, dict)] + [i for v in x.values() if isinstance(v, list) for i in v if isinstance(i, dict)]
         return "a" not in x and any("a" not in k for k in kids)
     nontriv = {vlib.case_hash([c.get("mode", c.get("dialect")), c["x"]]) for c in cases if "x" in c and nested(c["x"])}
-    nontriv |= {vlib.case_hash([c["optimized"], c["sql0"]]) for c in cases if c["stream"].startswith("plan") and c.get("stage") == "compared" and c.get("nrows", 0) > 0}
+    nontriv |= {vlib.case_hash([c["optimized"], c["sql0"]]) for c in cases if "sql0" in c and c.get("stage") == "compared" and c.get("nrows", 0) > 0}
     plan_stages = {}
     for c in cases:
-        if c["stream"].startswith("plan"):
+        if "sql0" in c:
             k = ("optimized:" if c["optimized"] else "unoptimized:") + c.get("stage", "panic")
             plan_stages[k] = plan_stages.get(k, 0) + 1
     ck.coverage.update({
@@ -256,7 +256,7 @@ def run(pid, tier, seed, replay):
         "translator": {"operators": len(info.get("variants", [])), "sqlparser": info.get("sqlparser"), "pins": info.get("pins"),
                        "df_prec": info.get("df_prec"), "sp_class_of": info.get("sp_class_of")},
         "samples": [next(({k: c.get(k) for k in ("mode", "meaning", "sql", "struct_ok", "sem")} for c in cases if c["stream"] == "frag"), None),
-                    next(({k: c.get(k) for k in ("sql0", "sql1", "nrows")} for c in cases if c["stream"].startswith("plan") and c.get("stage") == "compared"), None)],
+                    next(({k: c.get(k) for k in ("sql0", "sql1", "nrows")} for c in cases if "sql0" in c and c.get("stage") == "compared"), None)],
         "trusted_base": vlib.TRUSTED_COMMON + [
             "translators/rs_prec2coq.py (regex translator of Operator::precedence, op_to_sql/sql_to_op, the unparser constants, sqlparser prec_value / "
             "get_next_precedence_default / parse_infix tables; fails closed; remove_unnecessary_nesting, inner_precedence, sql_op_precedence and the Nested-wrapping arms of "
